@@ -24,6 +24,26 @@ NEEDS = {
  "C18-a": "FillInvokeInfo with a dig.In whose soft group field is declared before another field",
  "C19-a": "an Invoke failure whose root cause is a missing type reached through a value-group member",
  "C20-a": "a provider callback on a constructor that is re-entered through a decorator of its dependency",
+ "C01-b": "Export(true) from a child scope, a dependency private to the child, consumed through an optional field (zero value stands in for an available dependency)",
+ "C02-b": "two cooperating sites (Commit returns whether anything was staged; called = Commit(...)): a constructor whose only results are flattened groups returning an empty slice, demanded twice",
+ "C03-b": "two cooperating sites (decorator builds in the store parameter + requesting scope passed to d.Call): ancestor decorator with a second dependency that a descendant shadows/decorates, first demand from the descendant",
+ "C04-b": "optional field whose constructor exists, missing type two or more constructors below (errors.As replaced by a shallow type assertion)",
+ "C05-b": "child scope created while the parent's node slice has spare capacity, then Provide to the child, then Provide to the parent (shared backing array)",
+ "C06-b": "a Provide rejected for a cycle for a key without previous provider, then a later legitimate Provide of the same key (comma-ok presence test sees the restored nil entry)",
+ "C07-b": "a decorator returning a value together with an error and consuming the key it decorates; a later Invoke of the same key",
+ "C08-b": "key provided in an ancestor, resolved once from a descendant, then provided to a nearer scope, then resolved again (stale cached copy)",
+ "C09-b": "dig.As on a constructor returning a dig.Out with a name-tagged field",
+ "C10-b": "RecoverFromPanics container, a group feeder that panics on first execution, the group requested again",
+ "C11-b": "soft consumer in a child scope with members of the group held in two enclosing scopes",
+ "C12-b": "ancestor decorator consuming a second key that a descendant decorates, first resolution from the descendant (two cooperating sites)",
+ "C13-b": "RecoverFromPanics and a caller classifying RootCause with errors.As(dig.Error) (PanicError gains writeMessage)",
+ "C14-b": "VisualizeError with a value-group failure whose constructor id is not in the visualised graph (group decorator failure, or error of another container)",
+ "C15-b": "a decorator whose results are a dig.Out nested in a dig.Out; consumer of the nested key first, or a second Decorate of it",
+ "C16-b": "grandchild scope created before a registration two levels up, then a Provide into the grandchild consuming that type",
+ "C17-b": "DryRun(true) and a variadic constructor/decorator/function actually reached by Invoke",
+ "C18-b": "FillProvideInfo on a well-formed Provide that is rejected because it closes a cycle (no DeferAcyclicVerification)",
+ "C19-b": "a Provide rejected by cycle detection followed by Visualize",
+ "C20-b": "decorator with WithDecoratorCallback whose dependency fails to build or takes measurable time",
 }
 out = {}
 for d in sorted(os.listdir("/verif/seeded")):
@@ -31,7 +51,7 @@ for d in sorted(os.listdir("/verif/seeded")):
     if not os.path.isdir(p) or not os.path.exists(os.path.join(p, "patch.diff")):
         continue
     prop = d.split("-")[0]
-    r = subprocess.run(["/verif/tools/confirm_seed.sh", d, prop, p, "/tmp/seed/" + prop], capture_output=True, text=True)
+    r = subprocess.run(["/verif/tools/confirm_seed.sh", d, prop, p, "/tmp/seed2/" + prop], capture_output=True, text=True)
     res = re.search(r"RESULT \S+ build=(\S+) suite: pass=(\d+) fail=(\[.*?\]) \| demo with change: (.*?) \| demo without: (.*)", r.stdout)
     fired = re.search(r"FIRED \S+:(.*)", r.stdout)
     firstv = [l for l in r.stdout.splitlines() if l.startswith("violated:")]
